@@ -682,14 +682,24 @@ Fixpoint encrypt_objects (ip : iparams) (fek : bytes) (m : objmap) (ivs : list b
     ((id, fst r1) :: fst r2, snd r2)
   end.
 
-(* the encrypted document: every indirect object encrypted, the encryption dictionary added as the
-   indirect object [eid] (any unused object number), the trailer's Encrypt entry referring to it *)
-Definition encrypt_document (rq : irequest) (eid : oid) (rnd ivs : list bytes) (d : doc) : doc :=
+(* the encrypted document: every indirect object encrypted; the encryption dictionary is the value of the
+   trailer's Encrypt entry, either directly ([eid] = None) or as the indirect object [eid] (any unused object
+   number) *)
+Definition encrypt_document (rq : irequest) (eid : option oid) (rnd ivs : list bytes) (d : doc) : doc :=
   let '(ip, fek) := make_params rq (file_id0 (d_trailer d)) rnd in
-  {| d_version := d_version d; d_binary_mark := d_binary_mark d;
-     d_trailer := dict_set (d_trailer d) iK_Encrypt (ORef (fst eid) (snd eid));
-     d_objects := insert (fst (encrypt_objects ip fek (d_objects d) ivs)) eid (ODict (write_params ip));
-     d_max_id := N.max (d_max_id d) (fst eid) |}.
+  let objs := fst (encrypt_objects ip fek (d_objects d) ivs) in
+  match eid with
+  | Some eid =>
+    {| d_version := d_version d; d_binary_mark := d_binary_mark d;
+       d_trailer := dict_set (d_trailer d) iK_Encrypt (ORef (fst eid) (snd eid));
+       d_objects := insert objs eid (ODict (write_params ip));
+       d_max_id := N.max (d_max_id d) (fst eid) |}
+  | None =>
+    {| d_version := d_version d; d_binary_mark := d_binary_mark d;
+       d_trailer := dict_set (d_trailer d) iK_Encrypt (ODict (write_params ip));
+       d_objects := objs;
+       d_max_id := d_max_id d |}
+  end.
 
 (* ====================================================================================================
    Opening an encrypted document
